@@ -87,7 +87,7 @@ def sched_of(block):
     return m.group(1) if m else ""
 
 
-def tie_H(res, client, runs, hang_is_violation=True, label=None, exe=None):
+def tie_H(res, client, runs, hang_is_violation=True, label=None, exe=None, ignore_oracle=None, only_oracle=None):
     """History conformance: run the real container under the deterministic scheduler, judge every
     history with the verified checker.  `runs` = list of dicts {args: [...], cases: n}."""
     exe = exe or vlib.build_client(client)
@@ -125,8 +125,12 @@ def tie_H(res, client, runs, hang_is_violation=True, label=None, exe=None):
                 res.add("hangs")
                 continue
             xs = re.findall(r"^X (.*)$", block, flags=re.M)
+            if ignore_oracle:       # oracle verdicts that belong to another property
+                xs = [x for x in xs if not re.search(ignore_oracle, x)]
+            if only_oracle:
+                xs = [x for x in xs if re.search(only_oracle, x)]
             if xs:
-                res.violation("%s:%s:oracle:%s" % (label, var, xs[0].split()[0]), dict(replay, kind="oracle", oracle=xs))
+                res.violation("%s:%s:oracle:%s" % (label, var, "-".join(xs[0].rstrip(":").split()[:2]).rstrip(":")), dict(replay, kind="oracle", oracle=xs))
             if verdict == "NOTLIN":
                 res.violation("%s:%s:not-linearizable" % (label, var), replay)
             elif verdict != "LIN":
